@@ -76,6 +76,19 @@ def streams(seed, tier):
     cases = []
     bodies_ok = ["( 1 INTEGER.+ )", "( INDEX.CURRENT INTEGER.* )", "( TRUE BOOLEAN.NOT BOOLEAN.POP )", "( INDEX.CURRENT FLOAT.FROMINTEGER )", "NOOP", "( 2 INDEX.DEFINE EXEC.LOOP ( INDEX.CURRENT INTEGER.+ ) )"]
     bodies_bad = ["INDEX.POP", "EXEC.POP", "( 1 INDEX.DEFINE )", "EXEC.DUP", "( CODE.QUOTE X )", "INDEX.INCREASE", "EXEC.FLUSH", "( EXEC.Y NOOP )"]
+    # a loop whose body is a BOUND NAME (looked up at every iteration, also when the body rebinds it), duplicate INDEX entries beneath
+    for nn in range(0, 5):
+        for mk in (exec_loop, code_loop):
+            bnd = [("BODY", L(Z(1), I("INTEGER.+"))), ("REBIND", L(I("CODE.QUOTE"), Z(5), I("NAME.QUOTE"), N("BODY"), I("CODE.DEFINE"), N("BODY")))]
+            for body in (N("BODY"), N("REBIND"), N("unbound")):
+                for k in (3, 10, 60):
+                    cases.append(case_run(rng.randrange(2), state(exec=[mk(nn, body)], int=[1, 2, 3], bind=bnd), 0, k))
+        for body in (N("BODY"), N("REBIND")):
+            cases.append(case_run(rng.randrange(2), state(exec=[vec_loop(list(range(nn)), body)], int=[1, 2, 3],
+                                  bind=[("BODY", L(Z(1), I("INTEGER.+"))), ("REBIND", L(I("CODE.QUOTE"), Z(5), I("NAME.QUOTE"), N("BODY"), I("CODE.DEFINE"), N("BODY")))]), 0, 60))
+        for idx in ([(0, nn), (0, nn)], [(nn, nn), (nn, nn), (1, 9)], [(0, 0), (0, 0)]):
+            cases.append(case_run(rng.randrange(2), state(exec=[I("EXEC.LOOP"), L(Z(9)), I("INDEX.CURRENT")], index=idx), 0, 40))
+            cases.append(case_run(rng.randrange(2), state(exec=[I("CODE.LOOP"), I("INDEX.CURRENT")], code=[L(Z(9))], index=idx), 0, 40))
     for b in bodies_ok + bodies_bad:
         for nn in range(0, 7):
             body = parse_prog(b, modelled)[0]
